@@ -13,6 +13,7 @@ pub mod spec {
 }
 //@item src/write.rs | const EXTRA_FIELD_MAPPING
 //@include spec/extra_ok.rs
+//@include spec/dos_datetime.rs
 
 //@include common/writer_types.rs
 //@use deflate_compression_level_range
@@ -37,6 +38,11 @@ fn client_of_get_plain<W: Write + io::Seek>(g: &mut GenericZipWriter<W>, buf: &[
 //@impl src/write.rs | impl ZipWriterStats ; optional
 impl ZipWriterStats {
 //@use zipwriterstats_update optional
+}
+// contracts only: what a leaf function may ask a DateTime (bodies are verified in U5)
+impl DateTime {
+//@use dt_datepart nobody
+//@use dt_timepart nobody
 }
 //@impl src/write.rs | impl FileOptions
 impl FileOptions {
